@@ -16,6 +16,7 @@
 package main
 
 import (
+	"go/constant"
 	"regexp"
 	"fmt"
 	"go/ast"
@@ -37,6 +38,8 @@ type trUnit struct {
 	vars    []string            // package-level variables with a constant initialiser, emitted as definitions
 	consts  []string            // package-level string constants, emitted as definitions
 	optPtr  []string            // struct types whose pointers are optional values (`*T` = Option T, `&T{…}` = some, nil = none)
+	appendCalls map[string]int  // calls `f(sb, text, …)` that append to their first argument (a *strings.Builder): callee -> index of
+	                            // the text argument; translated as `sb := ext.paint sb text` (the other arguments are dropped)
 	skip    []string            // calls (source text of the callee) that are effects outside the translated state: the
 	                            // statement is dropped (its arguments are still guarded)
 	extern  map[string]trExtern // functions of other translated units: source text of the callee -> its translation
@@ -79,6 +82,10 @@ var trUnits = []trUnit{
 		skip:    []string{"h.send", "h.sendln", "h.handleCommandCb", "h.handleOptions", "context.WithCancel"},
 		extern:  map[string]trExtern{"config.DeserializeOptions": {lean: "Dtail.Gen.Config.DeserializeOptions", nResults: 3, canPanic: true}},
 		funcs:   []string{"baseHandler.handleProtocolVersion", "baseHandler.handleBase64", "baseHandler.handleCommand"}},
+	{ns: "Brush", pkgDir: "internal/color/brush", panics: true,
+		structs:     map[string][]string{},
+		appendCalls: map[string]int{"color.PaintWithAttr": 1},
+		funcs:       []string{"paintDefault", "paintSeverity", "paintRemote", "paintClient", "paintServer", "Colorfy"}},
 	{ns: "MaprQuery", pkgDir: "internal/mapr", panics: true,
 		structs: map[string][]string{"token": nil, "selectCondition": nil, "whereCondition": nil, "setCondition": nil, "Outfile": nil, "Query": nil},
 		enums:   []string{"AggregateOperation", "QueryOperation", "fieldType"},
@@ -227,7 +234,7 @@ func (p *trPkg) leanType(e ast.Expr) string {
 			return "GoLContext"
 		case "funcs.FunctionStack":
 			return "(List GoString)"
-		case "bytes.Buffer":
+		case "bytes.Buffer", "strings.Builder":
 			return "GoString"
 		case "regex.Regex":
 			return "GoRegex"
@@ -640,6 +647,11 @@ func (f *trFn) stmtGuards(s ast.Stmt) []string {
 		if call, ok := st.X.(*ast.CallExpr); ok && isLogging(call) {
 			return nil
 		}
+		if call, ok := st.X.(*ast.CallExpr); ok {
+			if ti, isAppend := f.p.unit.appendCalls[src(call.Fun)]; isAppend {
+				return f.guards(call.Args[ti])
+			}
+		}
 		out = f.guards(st.X)
 	case *ast.IncDecStmt:
 		out = f.guards(st.X)
@@ -716,6 +728,10 @@ func (f *trFn) stmt1(ind string, s ast.Stmt, next cont) string {
 		if isLogging(call) || contains(f.p.unit.skip, src(call.Fun)) {
 			return next(ind)
 		}
+		if ti, ok := f.p.unit.appendCalls[src(call.Fun)]; ok {
+			val := fmt.Sprintf("(ext.paint %s %s)", f.expr(call.Args[0]), f.expr(call.Args[ti]))
+			return f.assignTo(ind, call.Args[0], val, next)
+		}
 		return f.callStmt(ind, nil, false, call, next)
 	case *ast.IncDecStmt:
 		op := "+"
@@ -723,6 +739,10 @@ func (f *trFn) stmt1(ind string, s ast.Stmt, next cont) string {
 			op = "-"
 		}
 		return f.assignTo(ind, st.X, "("+f.expr(st.X)+" "+op+" 1)", next)
+	case *ast.DeferStmt:
+		if strings.HasPrefix(src(st.Call.Fun), "pool.Recycle") {
+			return next(ind) // giving a buffer back to its pool is not part of the value
+		}
 	case *ast.DeclStmt:
 		gd := st.Decl.(*ast.GenDecl)
 		if gd.Tok != token.VAR {
@@ -771,6 +791,17 @@ func (f *trFn) stmt1(ind string, s ast.Stmt, next cont) string {
 	}
 	trFail(s, "statement %T is not in the translated subset", s)
 	return ""
+}
+
+// ptrTarget: the variable a pointer argument points to: `&v`, or a variable that is a pointer itself
+func ptrTarget(e ast.Expr) ast.Expr {
+	if u, ok := e.(*ast.UnaryExpr); ok && u.Op == token.AND {
+		return u.X
+	}
+	if id, ok := e.(*ast.Ident); ok {
+		return id
+	}
+	return nil
 }
 
 // randDraw: the receiver of `r.Intn(n)` (math/rand), or nil
@@ -878,7 +909,7 @@ func (f *trFn) assign(ind string, st *ast.AssignStmt, k cont) string {
 			return f.callStmt(ind, st.Lhs, define, call, k)
 		}
 		if call, ok := st.Rhs[0].(*ast.CallExpr); ok && st.Tok != token.ADD_ASSIGN {
-			if key := f.p.calleeKey(f.key, call); key != "" && f.p.canPanic[key] {
+			if key := f.p.calleeKey(f.key, call); key != "" && (f.p.canPanic[key] || f.p.sigs[key].ptrParam != "") {
 				return f.callStmt(ind, st.Lhs, define, call, k)
 			}
 			if _, ok := f.p.unit.extern[src(call.Fun)]; ok {
@@ -1124,8 +1155,8 @@ func (f *trFn) callText(call *ast.CallExpr) string {
 		trFail(call, "call of %s is not a translated function", src(call.Fun))
 	}
 	if sg := f.p.sigs[key]; sg.ptrParam != "" {
-		if u, ok := call.Args[sg.ptrIdx].(*ast.UnaryExpr); ok && u.Op == token.AND {
-			args[sg.ptrIdx] = f.expr(u.X)
+		if x := ptrTarget(call.Args[sg.ptrIdx]); x != nil {
+			args[sg.ptrIdx] = f.expr(x)
 		}
 	}
 	return strings.TrimSpace(fmt.Sprintf("%s ext %s", leanIdent(key), strings.Join(args, " ")))
@@ -1193,9 +1224,9 @@ func (f *trFn) callBind(ind string, lhs []ast.Expr, define bool, call *ast.CallE
 	// a plain translated function that updates its first argument through a pointer
 	if key := f.p.calleeKey(f.key, call); key != "" && f.p.sigs[key].ptrParam != "" {
 		sig := f.p.sigs[key]
-		target, ok := call.Args[sig.ptrIdx].(*ast.UnaryExpr)
-		if !ok || target.Op != token.AND {
-			trFail(call, "call of %s: the pointer argument must be &variable", key)
+		targetX := ptrTarget(call.Args[sig.ptrIdx])
+		if targetX == nil {
+			trFail(call, "call of %s: the pointer argument must be &variable or a pointer variable", key)
 		}
 		rhs := okv
 		if rhs == "" {
@@ -1227,7 +1258,7 @@ func (f *trFn) callBind(ind string, lhs []ast.Expr, define bool, call *ast.CallE
 			}
 			return func(ind string) string { return f.oneAssign(ind, targets[i], define, tmps[i], chain(i+1)) }
 		}
-		return out + f.assignTo(ind, target.X, tr, chain(0))
+		return out + f.assignTo(ind, targetX, tr, chain(0))
 	}
 	// a translated function whose result was matched on
 	if okv != "" {
@@ -1259,6 +1290,20 @@ func (f *trFn) callBind(ind string, lhs []ast.Expr, define bool, call *ast.CallE
 }
 
 func (f *trFn) ifStmt(ind string, st *ast.IfStmt, k cont) string {
+	// a condition that is a call which updates a variable through a pointer, or can panic, is bound first
+	if call, ok := st.Cond.(*ast.CallExpr); ok && st.Init == nil {
+		if key := f.p.calleeKey(f.key, call); key != "" && (f.p.canPanic[key] || f.p.sigs[key].ptrParam != "" || f.p.sigs[key].ptrRecv) {
+			f.counter++
+			tmp := ast.NewIdent(fmt.Sprintf("cond_%d", f.counter))
+			bind := &ast.AssignStmt{Lhs: []ast.Expr{tmp}, Tok: token.DEFINE, Rhs: []ast.Expr{call}, TokPos: st.Pos()}
+			st2 := *st
+			st2.Cond = tmp
+			f.push()
+			out := f.stmts(ind, []ast.Stmt{bind, &st2}, func(ind string) string { return f.outside(1, func() string { return k(ind) }) })
+			f.pop()
+			return out
+		}
+	}
 	f.push()
 	defer f.pop()
 	var ifBody func(ind string) string
@@ -1418,8 +1463,8 @@ func (f *trFn) assignedOuter(body []ast.Stmt) []string {
 				mark(recv)
 			}
 			if key := f.p.calleeKey(f.key, s); key != "" && f.p.sigs[key].ptrParam != "" {
-				if u, ok := s.Args[f.p.sigs[key].ptrIdx].(*ast.UnaryExpr); ok && u.Op == token.AND {
-					mark(u.X) // updated through the pointer
+				if x := ptrTarget(s.Args[f.p.sigs[key].ptrIdx]); x != nil {
+					mark(x) // updated through the pointer
 				}
 			}
 		}
@@ -1686,7 +1731,7 @@ func (f *trFn) expr(e ast.Expr) string {
 		}
 		if id, ok := v.X.(*ast.Ident); ok {
 			if _, isVar := f.lookup(id.Name); !isVar {
-				if dir, ok := map[string]string{"protocol": "internal/protocol"}[id.Name]; ok {
+				if dir, ok := crossDirs[id.Name]; ok {
 					if text, ok := crossConst(dir, v.Sel.Name); ok {
 						return f.p.strLit(text)
 					}
@@ -1701,6 +1746,10 @@ func (f *trFn) expr(e ast.Expr) string {
 		return f.expr(v.X) + "." + v.Sel.Name
 	case *ast.IndexExpr:
 		return fmt.Sprintf("(GoIndex.idx %s %s)", f.expr(v.X), f.expr(v.Index))
+	case *ast.TypeAssertExpr:
+		if src(v) == "pool.BuilderBuffer.Get().(*strings.Builder)" {
+			return "([] : GoString)" // a fresh (reset) builder from the pool
+		}
 	case *ast.CompositeLit:
 		if src(v.Type) == "lcontext.LContext" && len(v.Elts) == 0 {
 			return "({} : GoLContext)"
@@ -1845,10 +1894,11 @@ func (f *trFn) expr(e ast.Expr) string {
 		case "strings.Split":
 			return "(splitOnByte " + f.oneByteLit(v.Args[1]) + " " + f.expr(v.Args[0]) + ")"
 		case "strings.SplitN":
-			if n := eval(v.Args[2], nil); n == nil || n.ExactString() != "2" {
-				trFail(v, "strings.SplitN with a limit other than 2")
+			n := eval(v.Args[2], nil)
+			if n == nil || n.Kind() != constant.Int {
+				trFail(v, "strings.SplitN with a limit that is not a constant")
 			}
-			return "(splitN " + f.oneByteLit(v.Args[1]) + " 2 " + f.expr(v.Args[0]) + ")"
+			return "(splitN " + f.oneByteLit(v.Args[1]) + " " + n.ExactString() + " " + f.expr(v.Args[0]) + ")"
 		case "strings.ToLower":
 			return "(lowerKey " + f.expr(v.Args[0]) + ")"
 		case "strings.ToUpper":
@@ -1973,6 +2023,17 @@ func leanBytesLit(text string) string {
 // split / join / contains take)
 func (f *trFn) oneByteLit(e ast.Expr) string {
 	c := eval(e, nil)
+	if c == nil {
+		if sel, ok := e.(*ast.SelectorExpr); ok {
+			if id, ok := sel.X.(*ast.Ident); ok {
+				if dir, ok := crossDirs[id.Name]; ok {
+					if text, ok := crossConst(dir, sel.Sel.Name); ok {
+						c = constant.MakeString(text)
+					}
+				}
+			}
+		}
+	}
 	if c == nil {
 		trFail(e, "separator is not a constant")
 	}
@@ -2253,6 +2314,9 @@ func (p *trPkg) emitConst(sb *strings.Builder, name string) {
 	trFail(nil, "constant %s not found in %s", name, p.unit.pkgDir)
 }
 
+// packages whose string constants translated code may name
+var crossDirs = map[string]string{"protocol": "internal/protocol"}
+
 // crossConst: a string constant of another package of the repository
 func crossConst(dir, name string) (string, bool) {
 	ents, err := os.ReadDir(filepath.Join(repo, dir))
@@ -2368,6 +2432,9 @@ func translateUnit(u trUnit) (out string) {
 						}
 						if src(st.X) == "lcontext.LContext" {
 							name = "GoLContext"
+						}
+						if src(st.X) == "strings.Builder" {
+							name = "GoString"
 						}
 						if name != "" {
 							s.ptrParam, s.ptrIdx, s.ptrType = fl.Names[0].Name, idx, name
